@@ -19,8 +19,8 @@ MatEq(tr, what, got, exp) ==
 
 \* a single source level carries weight one for every target
 WeightsT(xs, nxs, ex) == IF Len(xs) < 2 THEN <<[j \in 1..Len(nxs) |-> RInt(1)]>> ELSE Weights(xs, nxs, ex)
-Applied(xs, nxs, ex, d) == [j \in 1..Len(nxs) |->
-   RSumSeq([i \in 1..Len(xs) |-> RMul(WeightsT(xs, nxs, ex)[i][j], RInt(d[i]))])]
+Applied(xs, nxs, ex, d) == LET W == WeightsT(xs, nxs, ex) IN [j \in 1..Len(nxs) |->
+   RSumSeq([i \in 1..Len(xs) |-> RMul(W[i][j], RInt(d[i]))])]
 Mid2(E) == [k \in 1..(Len(E) - 1) |-> E[k] + E[k + 1]]       \* twice the layer mid-points
 
 TStep ==
@@ -36,6 +36,14 @@ TStep ==
             [] tr.kind = "w" /\ Len(tr.xs) >= 2 -> MatEq(tr, "weights", tr.got, Weights(tr.xs, tr.nxs, tr.ex))
             [] tr.kind = "c" -> MatEq(tr, "overlap coefficients", tr.got, Overlap(tr.F, tr.T))
             [] tr.kind = "app" -> MatEq(tr, "interpDimension values", <<tr.got>>, <<Applied(tr.xs, tr.nxs, tr.ex, tr.d)>>)
+            [] tr.kind = "appnd" ->
+                 \* N-D coordinate variables: each column on its own grid pair
+                 /\ ChkT(tr, 1, "interpDimension (N-D): result shape", tr.shape_ok)
+                 /\ \A q \in 1..Len(tr.cols) : LET c == tr.cols[q] IN
+                      /\ MatEq(tr, "interpDimension (N-D) values of column " \o ToString(q - 1), <<c.got>>,
+                               <<Applied(c.xs, c.nxs, tr.ex, c.d)>>)
+                      /\ MatEq(tr, "interpDimension (N-D) coordinate of column " \o ToString(q - 1), <<c.gotz>>,
+                               <<Applied(c.xs, c.nxs, tr.ex, c.xs)>>)
             [] tr.kind = "sig" ->
                  IF tr.itype = "linear"
                  THEN MatEq(tr, "interpSigma(linear) values", <<tr.got>>,
